@@ -678,6 +678,7 @@ Proof.
   apply andb_true_iff in Hwf. destruct Hwf as [Hwf _].
   apply andb_true_iff in Hwf. destruct Hwf as [Hwf _].
   apply andb_true_iff in Hwf. destruct Hwf as [Hwf _].
+  apply andb_true_iff in Hwf. destruct Hwf as [Hwf _].
   apply andb_true_iff in Hwf. destruct Hwf as [Hwf Hgn].
   apply andb_true_iff in Hwf. destruct Hwf as [Hdw Hshape].
   unfold descs_wf in Hdw. apply andb_true_iff in Hdw. destruct Hdw as [Hsorted Hall].
